@@ -378,7 +378,7 @@ def judge_ext_decls(case, im, mo):
         else:
             yield ("corr", f"the exporter refuses declarations the model shares: {im['refused'][:160]}")
     elif "package" in im:
-        strip = lambda p: [{k: v for k, v in e.items()} for e in p]
+        strip = lambda p: sorted(({k: v for k, v in e.items()} for e in p), key=lambda e: (e["domain"], e["name"]))  # in which order they are written is the exporter's business
         if strip(im["package"]) != strip(mo["package"]):
             yield ("corr", {"why": "the package's external-module declarations are not the model's", "impl": im["package"], "model": mo["package"]})
         keys = [(e["domain"], e["name"]) for e in im["package"]]
